@@ -100,7 +100,7 @@ def ref_state(P, t):
         return u0 * (1.0 + 0.05 * np.cos(3.0 * t + 0.3 * np.arange(u0.size).reshape(u0.shape))) + 0.01 * np.sin(t + np.arange(u0.size).reshape(u0.shape))
 
 
-def check_class(name, cls, tier, rng, extra=None, event_time=None):
+def check_class(name, cls, tier, rng, extra=None, event_time=None, history=True):
     """returns (list of failed clause strings, number of cases, uncovered reason or None); `extra`: non-default constructor parameters;
     `event_time`: the class' switch time attribute is set to it and the solver contract is checked exactly at, just before and just after it"""
     fails, cases = [], 0
@@ -203,7 +203,7 @@ def check_class(name, cls, tier, rng, extra=None, event_time=None):
                 fails.append(f'solve_system(factor={factor}, t={t}): relative defect {r:.2e} > {tol:.1e}')
     # history: consecutive solves on the SAME problem object whose factors differ only slightly (anything kept from the previous solve -- a
     # factorisation, a preconditioner, an initial guess -- must not leak into the next one)
-    for base in (1e-6, 1e-1) if tier == 'quick' else (1e-6, 1e-3, 1e-1, 1.0):
+    for base in ((1e-6, 1e-1) if tier == 'quick' else (1e-6, 1e-3, 1e-1, 1.0)) if history else ():
         for factor in (base, base * 1.009, base * (1 + 1e-7), base + 1e-9, base):
             cases += 1
             t = 0.3 if event_time is None else 0.5 * event_time
@@ -302,8 +302,12 @@ def variants(name, cls):
             out.append((f'{pn}={d * 1.7 + 0.13:g}', dict(extra={pn: d * 1.7 + 0.13})))
         elif isinstance(d, int) and not isinstance(d, bool) and pn in ('lam', 'mu', 'alpha', 'Vs', 'Rs', 'k', 'A', 'D', 'eps_param', 'dw', 'lambda0', 'c'):
             out.append((f'{pn}={d + 1}', dict(extra={pn: d + 1})))  # integer-valued parameters stay integers (exponents)
-    if len(out) > 4:
-        out = out[:4]
+    if len(out) > 8:
+        out = out[:8]
+    # integer exponents of the Allen-Cahn type reaction terms: an even value other than the default keeps the problem admissible
+    nu = sig.parameters.get('nu')
+    if nu is not None and isinstance(nu.default, (int, float)) and not isinstance(nu.default, bool) and float(nu.default) == 2.0 and 'nu' not in PARAMS.get(name, {}):
+        out.append(('nu=4', dict(extra=dict(nu=4))))
     # a domain that is NOT symmetric about the origin (the defaults all are): solver and right-hand side must agree on where the boundary is
     iv = sig.parameters.get('interval')
     if iv is not None and isinstance(iv.default, tuple) and len(iv.default) == 2 and all(isinstance(v, (int, float)) for v in iv.default) and 'interval' not in PARAMS.get(name, {}):
@@ -321,6 +325,14 @@ def variants(name, cls):
     if hasattr(cls, 'get_switching_info') and name in ('DiscontinuousTestODE',):
         out.append(('t_switch=1.2', dict(event_time=1.2)))
         out.append(('t_switch=0.7', dict(event_time=0.7)))
+    elif hasattr(cls, 'get_switching_info') and 'battery' in name.lower():
+        # the branch after the switch (voltage source feeds the circuit) is only reached once a switch time is set (or the capacitor voltage is low):
+        # with a set switch time, and with non-default circuit parameters on top of it
+        out.append(('t_switch=0.2', dict(event_time=0.2)))
+        for pn in ('L', 'Vs', 'Rs'):
+            p_ = sig.parameters.get(pn)
+            if p_ is not None and isinstance(p_.default, float):
+                out.append((f't_switch=0.2,{pn}={p_.default * 1.7 + 0.13:g}', dict(event_time=0.2, extra={pn: p_.default * 1.7 + 0.13})))
     return out
 
 
@@ -503,12 +515,12 @@ def bounded_problem_contracts(tier, seed, part=0, nparts=1):
         # the event time of the discontinuous classes set by an earlier event detection (history)
         for tag, kw in variants(name, cls):
             signal.signal(signal.SIGALRM, _alarm)
-            signal.alarm(20)
+            signal.alarm(60)
             try:
-                f2, c2, why2 = check_class(name, cls, 'quick', rng, **kw)
+                f2, c2, why2 = check_class(name, cls, 'quick', rng, history=False, **kw)
             except _Timeout:
                 f2, c2, why2 = [], 0, 'time limit'
-                uncovered.append(f'{name}[{tag}]: variant skipped after 20 s')
+                uncovered.append(f'{name}[{tag}]: variant skipped after 60 s')
             except Exception as e:
                 f2, c2, why2 = [], 0, f'harness error {type(e).__name__}'
             finally:
